@@ -154,8 +154,8 @@ def _judge(out, prop, events, wd, tag):
 
 
 RANDOM = {   # doc-record batches: (count, extra args)
-    "quick": [(900, []), (300, ["--cr"])],
-    "thorough": [(20000, []), (4000, ["--cr"])],
+    "quick": [(900, []), (300, ["--cr"]), (8, ["--deep"])],
+    "thorough": [(20000, []), (4000, ["--cr"]), (40, ["--deep"])],
 }
 
 
